@@ -252,7 +252,7 @@ fn replay_schedule(p: &Prog2, k: usize, schedule: &[Act2]) -> (Option<ObsItem>, 
                                 outputs: row
                                     .outputs
                                     .iter()
-                                    .map(|o| ObsOut { name: o.signal.name.clone(), bits: o.signal.bits, output: V::from(o.output), expected: V::from(o.expected), check: o.check(), is_checked: o.is_checked(), failing: !o.check(), is_virtual: false })
+                                    .map(|o| ObsOut { name: o.signal.name.clone(), bits: o.signal.bits, output: V::from(o.output), expected: V::from(o.expected), check: o.check(), is_checked: o.is_checked(), failing: !o.check(), is_virtual: false, value_check: (o.check(), o.check()) })
                                     .collect(),
                             }),
                             Some(Err(e)) => ObsItem::Runtime(miette_chain(&e)),
@@ -393,6 +393,7 @@ fn part2(k: usize, merge: bool, max_rows: usize, deadline: &Deadline) -> Stats {
                 for o in r.outputs.iter_mut() {
                     o.is_virtual = false;
                     o.failing = !o.check;
+                    o.value_check = (o.check, o.check);
                 }
             }
         }
